@@ -114,3 +114,54 @@ fn sni_no_host() {
         assert_eq!(flag(&req), Some(false));
     }
 }
+
+/// sweep over the small input space the property speaks about, against an oracle written from the property text:
+/// version x URI authority x Host header x TLS info.  (host named by the request: HTTP/2 -> :authority, failing that
+/// the Host header; HTTP/1.x -> the Host header.)
+#[test]
+fn sni_decision_sweep() {
+    let sni_name = "example.com";
+    let uris: [(&str, Option<&str>); 4] = [
+        ("/path", None),
+        ("https://example.com/path", Some("example.com")),
+        ("https://EXAMPLE.com:8443/path", Some("EXAMPLE.com")),
+        ("https://evil.example/path", Some("evil.example")),
+    ];
+    let hosts: [Option<&str>; 5] = [None, Some("example.com"), Some("Example.COM:443"), Some("evil.example"), Some("example.com.evil.example")];
+    let tls: [Option<Option<&str>>; 3] = [None, Some(None), Some(Some(sni_name))];
+    for v in [http::Version::HTTP_10, http::Version::HTTP_11, http::Version::HTTP_2] {
+        for (uri, auth_host) in uris {
+            for host in hosts {
+                for t in tls {
+                    let mut req = Request::builder().version(v).uri(uri).body(()).unwrap();
+                    if let Some(h) = host { req.headers_mut().insert(header::HOST, h.parse().unwrap()); }
+                    if let Some(s) = t {
+                        req.extensions_mut().insert(TlsConnectionInfo { server_name: s.map(Into::into), ..TlsConnectionInfo::default() });
+                    }
+                    let named: Option<String> = if v == http::Version::HTTP_2 && auth_host.is_some() {
+                        auth_host.map(|s| s.to_string())
+                    } else {
+                        host.map(|h| h.rsplit_once(':').map(|(a, _)| a).unwrap_or(h).to_string())
+                    };
+                    let r = handle(&mut req);
+                    let ctx = format!("version={v:?} uri={uri} host={host:?} tls={t:?}");
+                    match t {
+                        None => { assert!(r.is_none(), "{ctx}: not a TLS request, must be passed on"); }
+                        Some(None) => { assert!(matches!(r, Some(ValidateSNIError::MissingSNI { .. })), "{ctx}: no server name was sent, must be rejected, got {r:?}"); }
+                        Some(Some(s)) => match named {
+                            None => { assert!(r.is_none(), "{ctx}: names no host, got {r:?}"); assert_eq!(flag(&req), Some(false), "{ctx}: marked validated without a host"); }
+                            Some(n) if n.eq_ignore_ascii_case(s) => {
+                                assert!(r.is_none(), "{ctx}: host equals the server name, must never be rejected, got {r:?}");
+                                assert_eq!(flag(&req), Some(true), "{ctx}: forwarded but not marked validated");
+                            }
+                            Some(_) => {
+                                assert!(matches!(r, Some(ValidateSNIError::InvalidSNI { .. })), "{ctx}: host differs from the server name, must be rejected, got {r:?}");
+                                assert_eq!(flag(&req), Some(false), "{ctx}: rejected request marked validated");
+                            }
+                        },
+                    }
+                }
+            }
+        }
+    }
+}
